@@ -1,0 +1,73 @@
+package wazevo
+
+import (
+	"context"
+	"fmt"
+
+	"github.com/tetratelabs/wazero/api"
+	"github.com/tetratelabs/wazero/internal/internalapi"
+	"github.com/tetratelabs/wazero/internal/wasm"
+	"github.com/tetratelabs/wazero/internal/wasmdebug"
+)
+
+// goFunctionCallEngine implements api.Function for a host (Go) function which a guest module imports and
+// exports again. Unlike a Wasm function, it is called directly from Go, without entering any machine code.
+type goFunctionCallEngine struct {
+	internalapi.WazeroOnly
+	def *wasm.FunctionDefinition
+	// goFunc is either api.GoFunction or api.GoModuleFunction.
+	goFunc any
+	// module is the instance which re-exports the function, passed as the calling module.
+	module *wasm.ModuleInstance
+}
+
+// Definition implements api.Function.
+func (g *goFunctionCallEngine) Definition() api.FunctionDefinition { return g.def }
+
+// Call implements api.Function.
+func (g *goFunctionCallEngine) Call(ctx context.Context, params ...uint64) ([]uint64, error) {
+	typ := g.def.Functype
+	if n := typ.ParamNumInUint64; n != len(params) {
+		return nil, fmt.Errorf("expected %d params, but passed %d", n, len(params))
+	}
+	stackSize := typ.ParamNumInUint64
+	if rn := typ.ResultNumInUint64; rn > stackSize {
+		stackSize = rn
+	}
+	stack := make([]uint64, stackSize)
+	copy(stack, params)
+	if err := g.CallWithStack(ctx, stack); err != nil {
+		return nil, err
+	}
+	return stack[:typ.ResultNumInUint64], nil
+}
+
+// CallWithStack implements api.Function.
+func (g *goFunctionCallEngine) CallWithStack(ctx context.Context, stack []uint64) (err error) {
+	typ := g.def.Functype
+	need := typ.ParamNumInUint64
+	if rn := typ.ResultNumInUint64; rn > need {
+		need = rn
+	}
+	if need > len(stack) {
+		return fmt.Errorf("need %d params, but stack size is %d", need, len(stack))
+	}
+	defer func() {
+		if r := recover(); r != nil {
+			builder := wasmdebug.NewErrorBuilder()
+			builder.AddFrame(g.def.DebugName(), g.def.ParamTypes(), g.def.ResultTypes(), nil)
+			err = builder.FromRecovered(r)
+		} else {
+			err = g.module.FailIfClosed()
+		}
+	}()
+	switch f := g.goFunc.(type) {
+	case api.GoModuleFunction:
+		f.Call(ctx, g.module, stack)
+	case api.GoFunction:
+		f.Call(ctx, stack)
+	default:
+		panic(fmt.Sprintf("BUG: unexpected GoFunc type: %T", g.goFunc))
+	}
+	return
+}
